@@ -20,6 +20,7 @@
  *   setea <ino> <len>             ext2fs_xattr_set(user.big, len bytes)                      (= debugfs ea_set)
  *   fsck <flags>                  close the filesystem, run $DIRDRV_E2FSCK -<flags> <image>, reopen; "rc" = exit status
  *   sync                          ext2fs_flush
+ * A line starting with '-' is executed without printing an observation (runs of operations).
  *
  * Releasing an inode (rm at zero, rmdir, kill) is done the way misc/fuse2fs.c remove_inode() does it with public calls:
  * ext2fs_free_ext_attr, ext2fs_punch(0, ~0), ext2fs_inode_alloc_stats2(-1), dtime set.
@@ -523,14 +524,16 @@ int main(int argc, char **argv)
 	if (r) { fprintf(stderr, "open: %s\n", error_message(r)); return 3; }
 	printf("{\"op\":\"open\",\"r\":\"ok\",\"rc\":0,"); dump_state(); printf("}\n"); fflush(stdout);
 	while (fgets(line, sizeof(line), stdin)) {
-		int n, rc = 0;
+		int n, rc = 0, quiet = 0;
 		const char *res;
+		char *lp = line;
 		a2[0] = a3[0] = 0; a1 = 0;
-		n = sscanf(line, "%31s %u %1023s %63s", op, &a1, a2, a3);
+		if (*lp == '-') { quiet = 1; lp++; }            /* "-op ..." = execute without printing an observation */
+		n = sscanf(lp, "%31s %u %1023s %63s", op, &a1, a2, a3);
 		if (n < 1 || op[0] == '#') continue;
 		if (!strcmp(op, "quit")) break;
 		if (!strcmp(op, "fsck")) {
-			if (sscanf(line, "%*s %63s", a3) != 1) { fprintf(stderr, "bad fsck line\n"); return 2; }
+			if (sscanf(lp, "%*s %63s", a3) != 1) { fprintf(stderr, "bad fsck line\n"); return 2; }
 			rc = op_fsck(a3); r = 0;
 		}
 		else if (!strcmp(op, "sync")) r = ext2fs_flush(fs);
@@ -550,6 +553,7 @@ int main(int argc, char **argv)
 		res = rname(r);
 		if (r == EXT2_ET_NO_DIRECTORY + 100000) res = "isdir";
 		if (r == EXT2_ET_DIR_EXISTS + 100000) res = "notempty";
+		if (quiet) continue;
 		printf("{\"op\":\"%s\",\"r\":\"%s\",\"rc\":%d,", op, res, rc);
 		dump_state();
 		printf("}\n");
